@@ -606,10 +606,23 @@ def check(case):
                                                       coords={'chain': [0], 'draw': [0, 1]})
                                      for nm, v in zip(nms, vals)})
                     posts.append(chi.PosteriorPredictiveModel(pmk, ds))
-                pam = chi.PAMPredictiveModel(posts, [1.0, 1.0])
+                # (a candidate with weight 0 is a candidate; the weights alternate between the cases)
+                w_pam = [[1.0, 1.0], [0.0, 1.0], [1.0, 0.0]][len(want) % 3]
+                pam = chi.PAMPredictiveModel(posts, list(w_pam))
                 r = s['reg']
+                # another regimen was scheduled and its table requested before: the second call replaces it everywhere
+                pam.set_dosing_regimen(dose=9.9, start=0.3, duration=0.2, period=0.7, num=2)
+                pam.get_dosing_regimen(final_time=ft)
+                pam.sample(np.array([ft]), n_samples=1, seed=1, include_regimen=True)
                 pam.set_dosing_regimen(dose=r['dose'], start=r['start'], duration=r['duration'], period=r['period'],
                                        num=r['num'])
+                df_p = pam.get_dosing_regimen(final_time=ft)
+                case.true(df_p is not None, 'the averaged model (weights %r) reports no regimen' % (w_pam,))
+                got_p = sorted((float(a), float(b), float(c)) for a, b, c in df_p[['Time', 'Duration', 'Dose']].values)
+                case.equal(len(got_p), len(want), 'number of dose events reported by the averaged model (weights %r) after the '
+                           'regimen was replaced: %r, scheduled %r' % (w_pam, [g[0] for g in got_p], [w[0] for w in sorted(want)]))
+                case.close(np.array(got_p), np.array(sorted(want)), rtol=1e-9,
+                           what='regimen table of the averaged model (weights %r) after the regimen was replaced' % (w_pam,))
                 for k, post in enumerate(pam.get_predictive_model()):
                     dfk = post.get_dosing_regimen(final_time=ft)
                     case.true(dfk is not None, 'candidate model %d of the averaged model reports no regimen' % (k + 1))
